@@ -201,6 +201,12 @@ def quick_plans(rng, thorough):
         add("V4R4", stm="0", str="1", identity_style="none-cfm", none_style="default", n_overrides=1, extra_cf=[[b"ExtraN".hex(), "0"]])
         add("V4R4", stm="0", str="1", identity_style="none-cfm", none_style="explicit", n_overrides=0, extra_cf=[])
         add("V5R5", stm="3", str="0", identity_style="none-cfm", none_style="explicit", n_overrides=0, extra_cf=[])
+        # signature dictionaries: /Contents is never encrypted; with and without the optional /Type /Sig
+        add("V4R4", stm="2", str="2", sig="typed", layout="classic")
+        add("V5R5", stm="3", str="3", sig="typed", layout="classic")
+        add("V2R3", keylen=16, sig="typed", layout="classic")
+        add("V4R4", stm="2", str="1", sig="untyped", layout="classic")
+        add("V1R2", sig="untyped", layout="classic")
     # R6: fixed secrets (memoised extracted results in the quick tier)
     for k, lay in enumerate(("classic", "objstm") if not thorough else ("classic", "objstm", "classic")):
         over = dict(R6_FIXED)
@@ -273,7 +279,7 @@ def leaf_class(ef, l):
         return "crypt-" + ef.override[l["num"]][0]
     if l["path"] == ("stream",):
         return "stream-rootmeta" if l["num"] == ef.rootmeta else "stream"
-    return {"s:o": "string", "s:m": "string-in-objstm", "s:t": "string-in-trailer"}[l["kind"]]
+    return {"s:o": "string", "s:m": "string-in-objstm", "s:t": "string-in-trailer", "s:g1": "sig-contents", "s:g0": "sig-contents-untyped"}[l["kind"]]
 
 
 # ---------------------------------------------------------------- independent reading of an encrypted output of qpdf
@@ -320,8 +326,10 @@ def read_encrypted_output(path, key_hex, run):
         if isinstance(c2, dict) and isinstance(c2.get(b"Metadata"), Ref):
             clear_meta = (c2[b"Metadata"].n, c2[b"Metadata"].g)
 
-    def rebuild(o, og, path_):
+    def rebuild(o, og, path_, parent=None):
         if isinstance(o, Str):
+            if isinstance(parent, dict) and path_ and path_[-1] == b"Contents" and parent.get(b"Type") == Name(b"Sig") and b"ByteRange" in parent:
+                return o           # signature value: written in the clear (ISO 32000-2 7.6.2)
             v = dec.get((og, path_, "s"))
             if v is None:
                 problems.append("string %r %r does not decrypt (malformed AES data)" % (og, path_))
@@ -330,7 +338,7 @@ def read_encrypted_output(path, key_hex, run):
         if isinstance(o, list):
             return [rebuild(x, og, path_ + (k,)) for k, x in enumerate(o)]
         if isinstance(o, dict):
-            return {k: rebuild(v, og, path_ + (k,)) for k, v in o.items()}
+            return {k: rebuild(v, og, path_ + (k,), o) for k, v in o.items()}
         return o
     objs = {}
     pending = []
@@ -462,11 +470,13 @@ SIG_PREFIX = "C06:"
 
 def leaf_signature(ef, l):
     cls = leaf_class(ef, l)
+    if cls == "sig-contents-untyped":
+        return SIG_PREFIX + "sig-contents-without-type"
     if cls.startswith("crypt-"):
         form = cls[6:]
         if form in gen.FORMS_DEFAULTED and form != "noname":
             return SIG_PREFIX + "crypt-filter-defaults:" + form
-    if l.get("method") == "0" and l["kind"] not in ("s:m", "s:t") and ef.V >= 4 and ef.plan.get("none_style") == "explicit" and "0" in ef.cf.values():
+    if l.get("method") == "0" and l["kind"] not in ("s:m", "s:t", "s:g1", "s:g0") and ef.V >= 4 and ef.plan.get("none_style") == "explicit" and "0" in ef.cf.values():
         # the leaf is governed by a crypt filter whose /CFM /None is written out
         name = None
         if l["path"] == ("stream",):
@@ -484,6 +494,8 @@ def leaf_signature(ef, l):
 def file_signatures(ef):
     """signatures of the known-finding input classes a file belongs to (for observations that cannot be attributed to one leaf)"""
     sigs = []
+    if ef.plan.get("sig") == "untyped" and any(l["kind"] == "s:g0" for l in ef.leaves):
+        sigs.append(SIG_PREFIX + "sig-contents-without-type")
     if ef.V >= 4 and ef.plan.get("none_style") == "explicit" and "0" in ef.cf.values():
         sigs.append(SIG_PREFIX + "cfm-none-explicit")
     for n, (form, name) in sorted(ef.override.items()):
@@ -892,7 +904,7 @@ def pdfdoc_text(b):
     """PDFDocEncoding (ISO 32000 Annex D) -> text; None when a byte has no character"""
     out = []
     for c in b:
-        if c in (0x9F, 0xAD) or (c < 0x18 and c not in (9, 10, 13)) or c == 0x7F:
+        if c in (0x9F, 0xAD) or (c < 0x18 and c not in (8, 9, 10, 12, 13)) or c == 0x7F:
             return None
         out.append(chr(PDFDOC.get(c, c)))
     return "".join(out)
